@@ -4,13 +4,13 @@ CONSTANTS
   FixFinal = TRUE
   FixSpillMin = TRUE
   FixLeftId = TRUE
-  ShapeSet = "medium"
-  Sizes = {0, 2, 3, 7}
-  Spills = {0, 1, 3, 6}
-  WPCs = {1, 2, 3}
+  ShapeSet = "tiny"
+  Sizes = {1, 2, 7, 10}
+  Spills = {3}
+  WPCs = {2}
   Hdrs = {0, 2, 4}
   Ftrs = {0, 2}
-  MinParts = {0, 1, 3}
+  MinParts = {1}
   M = 3
 INVARIANT NoFail
 INVARIANT IdsUnique
